@@ -440,6 +440,23 @@ def c14_require(agg):
     return ["fewer than 100 scenarios of kind %d" % k for k in range(6) if st.get("kind_%d" % k, 0) < 100]
 
 
+# ------------------------------------------------------------------ C15
+
+def c15_plan(tier, seed):
+    out = jobs("os-debug", "c15", 10, lambda b: {"IPCMON_SNDBUF": 8192}, timeout=3000)
+    out += jobs("os-release", "c15", 10, lambda b: {"IPCMON_SNDBUF": 16384}, timeout=3000)[:3 if tier == "quick" else 10]
+    out += jobs("inproc-debug", "c15", 5, None, timeout=3000)[:2 if tier == "quick" else 5]
+    return out
+
+
+def c15_require(agg):
+    st = agg["stats"]
+    need = []
+    if st.get("accepted", 0) < 500 or st.get("refused", 0) < 300:
+        need.append("fewer than 500 accepted or 300 refused sends")
+    return need
+
+
 # ------------------------------------------------------------------ C19
 
 def c19_plan(tier, seed):
@@ -493,6 +510,20 @@ NOTES = ("Runtime monitoring and sanitizers. ./check <id> rebuilds the harness (
 NOT_APPLICABLE = {}
 
 PROPS = {
+    "C15": {
+        "plan": c15_plan,
+        "require": c15_require,
+        "level": "exploration",
+        "exhaustive_tiers": ["thorough"],
+        "level_text": "Sweep: attachment counts 0..300 (thorough: every count; quick: every count 0..80, then steps of 16 plus 252..255) x mixtures {senders, receivers, "
+                      "regions, mixed} x data {empty, small, exactly one packet, one byte over, multi-packet}. A refused send must leave the channel usable and retain "
+                      "nothing; an accepted send must be received (watched by the logical hang rule) with every attachment identity-probed in position. The grid is "
+                      "finite and run completely in the thorough tier.",
+        "level_note": "Packets are made small with a reported SO_SNDBUF so both ends can run in one thread. The in-process transport has no limit and must deliver everything it accepts.",
+        "technique": "runtime monitoring: exhaustive attachment-count sweep with identity probes, refusal/usable-afterwards oracle and hang detection on the receive",
+        "rule": "case = (mixture, data class, attachment count, reported SO_SNDBUF); distinct = that tuple; all are non-trivial",
+        "assumptions": [],
+    },
     "C14": {
         "plan": c14_plan,
         "require": c14_require,
